@@ -115,6 +115,59 @@ pub fn run(rep: &mut Rep) {
             }
         }
     }
+    // operations waiting for their acknowledgement when the connection ends - by every reason code a server may put into a
+    // DISCONNECT, end-of-stream, a read error, a write error -; run() returns, then the context is dropped: ContextExited
+    rep.note("waiting when the connection ends: QoS 1 / QoS 2 (before PUBREC, before PUBCOMP) publishes, a subscribe, an unsubscribe and a ping written and unanswered; the connection ends by a server DISCONNECT with each of the 28 reason codes (short and full form), end-of-stream, a read error or a write error; run() has returned, the context is dropped, every future reports ContextExited, operations started afterwards too");
+    let mut widx = 46_000_000u64;
+    let nreasons = crate::refcodec::DISCONNECT_REASONS_SERVER.len();
+    for cause in 0..nreasons + 3 {
+        for form in [1u8, 2] {
+            let id = format!("waiting-at-end:{cause}:{form}");
+            widx += 1;
+            if !rep.take(widx, &id) {
+                continue;
+            }
+            let mut w = World::boot(WorldCfg { seed: rep.seed, order: (cause % 4) as u8, ..Default::default() });
+            let mut ops = Vec::new();
+            for (j, kind) in [Kind::Pub1, Kind::Pub2, Kind::Pub2, Kind::Sub, Kind::Unsub, Kind::Ping].into_iter().enumerate() {
+                let i = w.start(j % 2, kind);
+                w.settle_check();
+                if j == 2 {
+                    w.deliver_ack(i, 1, 0, 0);
+                    w.settle_check();
+                }
+                ops.push(i);
+            }
+            if cause < nreasons {
+                let reason = crate::refcodec::DISCONNECT_REASONS_SERVER[cause];
+                w.server_disconnect(reason, if reason == 0 && form == 1 { 0 } else { form }, form == 2);
+            } else if cause == nreasons {
+                w.eof();
+            } else if cause == nreasons + 1 {
+                w.read_err();
+            } else {
+                w.write_err();
+            }
+            w.settle_check();
+            let ended = w.sim.run_result().is_some();
+            w.drop_ctx();
+            w.settle_check();
+            for kind in [Kind::Pub1, Kind::Ping, Kind::Sub] {
+                let i = w.start(0, kind);
+                w.settle_check();
+            }
+            finish(&mut w);
+            rep.add("evaluations", 1);
+            if ended {
+                rep.add("waiting_when_the_connection_ended_cases", 1);
+            }
+            rep.distinct(&("waiting-at-end", cause, form));
+            if super::harvest(rep, &mut w, &id) == 0 {
+                rep.sample(|| format!("{id}: run() = {:?}; results after the drop {:?}", w.sim.run_result(), ops.iter().map(|&i| w.sim.ops[i].out.as_ref().map(|o| o.brief())).collect::<Vec<_>>()));
+            }
+            super::add_counters(rep, &w);
+        }
+    }
     // requests queued behind whatever ended run() (the user's DISCONNECT from another clone, a server DISCONNECT, EOF):
     // they were never looked at; when the context is dropped they fail with ContextExited like everything else
     rep.note("queued behind the end of run(): with the context held, a terminating cause (user DISCONNECT / server DISCONNECT reason 0 / reason 0x8b / EOF) is followed by one operation of every kind from two clones; run() ends, the context is dropped: every one of them reports ContextExited, none hangs");
